@@ -403,9 +403,9 @@ func genSimpleList(e *env, rng *gen.Rng) {
 	}
 	// bounded-exhaustive: every (count, viewport) with every sequence over the full alphabet up to
 	// length lenFull, and over the reduced alphabet up to length lenRed on a sub-grid
-	lenFull, lenRed := 3, 5
+	lenFull, lenRed, lenTiny := 3, 5, 0
 	if r.Thorough {
-		lenFull, lenRed = 4, 7
+		lenFull, lenRed, lenTiny = 4, 6, 7
 	}
 	for n := 0; n <= 4; n++ {
 		for h := 0; h <= 5; h++ {
@@ -415,6 +415,15 @@ func genSimpleList(e *env, rng *gen.Rng) {
 	for _, n := range []int{0, 1, 3} {
 		for _, h := range []int{0, 1, 2} {
 			rec(n, h, alphabet(n, h, false)[:6], nil, lenRed)
+		}
+	}
+	if lenTiny > 0 {
+		// thorough: length-7 histories over {down, up, end, draw, set 0} on the smallest lists
+		for _, n := range []int{0, 1} {
+			for _, h := range []int{0, 1} {
+				a := alphabet(n, h, false)
+				rec(n, h, []string{a[0], a[1], a[2], a[4], a[5]}, nil, lenTiny)
+			}
 		}
 	}
 	// random long histories
